@@ -1441,7 +1441,15 @@ impl ASN1Value {
                     referenced = tlds.get(next);
                 }
                 if let Some(ToplevelDefinition::Value(tld)) = referenced {
-                    *self = tld.value.clone();
+                    if matches!(tld.value, ASN1Value::ElsewhereDeclaredValue { .. }) {
+                        // The referenced value is not linked yet: its identifier belongs to
+                        // its own governing type
+                        let mut definition = tld.clone();
+                        definition.collect_supertypes(tlds)?;
+                        *self = definition.value;
+                    } else {
+                        *self = tld.value.clone();
+                    }
                     self.link_with_type(tlds, ty, type_name)?;
                 }
                 Ok(())
